@@ -270,8 +270,10 @@ def craft_dict(rng, items, enc):
     if not enc.endswith(good):
         return None
     head, nv, n = enc[:len(enc) - len(good)], len(order), len(items)
-    k = rng.choice(["idx=len", "idx=len+1", "idx-big", "odd", "sum+1", "sum-1", "huge-count", "max-count", "width0",
-                    "width33", "width255", "len-inflated", "len-max", "empty-rle", "valid"])
+    # kinds that make the *pinned* decoder spin or allocate gigabytes are drawn rarely: one hit proves the point
+    # and each costs the driver's time limit on an unrepaired tree
+    k = rng.choice(["idx=len", "idx=len+1", "idx-big", "odd", "sum+1", "sum-1", "width0", "width33", "width255",
+                    "len-inflated", "empty-rle", "valid"] if rng.random() < 0.97 else ["huge-count", "max-count", "len-max", "width0-huge"])
     r = rle(idx)
     if k == "idx=len":
         r[2 * rng.randrange(len(r) // 2)] = nv
@@ -290,7 +292,9 @@ def craft_dict(rng, items, enc):
     elif k == "max-count":
         r[2 * rng.randrange(len(r) // 2) + 1] = 2**32 - 1
     if k == "width0":
-        tail = bitpack([], width=0, length=rng.choice([1, 8, 1000, 2**24, 2**32 - 1]))
+        tail = bitpack([], width=0, length=rng.choice([1, 8, 1000, 70000]))
+    elif k == "width0-huge":
+        tail = bitpack([], width=0, length=rng.choice([2**24, 2**32 - 1]))
     elif k == "width33":
         tail = bitpack(r, width=rng.choice([33, 40, 64, 65]))
     elif k == "width255":
